@@ -27,7 +27,7 @@ type HostileCase struct {
 
 var hostileKinds = []string{
 	"clone-no-keys", "clone-substituted-aa-key", "clone-substituted-ca-key", "clone-substituted-keys-resigned-untrusted",
-	"stripped-dg14", "stripped-dg15", "cardaccess-extra-info", "cardaccess-downgraded", "cam-cardsec-untrusted", "cam-substituted-key-resigned-untrusted", "genuine",
+	"stripped-dg14", "stripped-dg15", "cardaccess-extra-info", "cardaccess-downgraded", "cam-cardsec-untrusted", "cam-substituted-key-resigned-untrusted", "cam-clone-swaps-cardsec", "cardaccess-foreign-info-no-pace", "genuine",
 }
 
 type HostileEngine struct{}
@@ -90,7 +90,16 @@ func (HostileEngine) Gen(prop, tier string, seed uint64, yield func(c any) bool)
 				}
 			}
 			s.PaceJunk = 0
-		case "cam-cardsec-untrusted", "cam-substituted-key-resigned-untrusted":
+		case "cardaccess-foreign-info-no-pace":
+			// a BAC chip with DG14 whose EF.CardAccess holds no PACE info at all, only entries DG14 does not contain
+			s.PACE, s.PaceJunk, s.BAC = nil, 0, true
+			if s.Password == "can" {
+				s.Password = "mrz"
+			}
+			if s.CA == nil {
+				s.CA = &world.CASpec{CurveID: core.Pick(rng, chip.AllParamIDs), Suites: []string{core.Pick(rng, allSuites)}}
+			}
+		case "cam-cardsec-untrusted", "cam-substituted-key-resigned-untrusted", "cam-clone-swaps-cardsec":
 			s.PACE = []world.PaceSpec{{Suite: core.Pick(rng, aesSuites), CAM: true, ParamID: core.Pick(rng, chip.AllParamIDs)}}
 			s.AA, s.CA = nil, nil
 			if s.Password == "dg1" {
@@ -350,6 +359,37 @@ func applyHostile(w *world.World, kind string) (applied bool) {
 		w.MF[chip.FidCardSecurity] = pki.BuildSignedData(cs, rng).DER
 		w.Pers.CAKeys = keys
 		return true
+	case "cardaccess-foreign-info-no-pace":
+		if w.LDS[chip.FidDG(14)] == nil {
+			return false
+		}
+		var infos [][]byte
+		switch rng.Intn(3) {
+		case 0:
+			infos = append(infos, lds.UnknownInfo(rng))
+		case 1:
+			id := int64(rng.Range(400, 900))
+			infos = append(infos, lds.ChipAuthInfo(chip.CAOID(chip.AES128), &id))
+		default:
+			infos = append(infos, lds.UnknownInfo(rng), lds.TerminalAuthInfo(), lds.UnknownInfo(rng))
+		}
+		w.MF[chip.FidCardAccess] = lds.SecurityInfos(infos, true)
+		return true
+	case "cam-clone-swaps-cardsec":
+		// a clone with its own key pair that answers the first read of EF.CardSecurity with a copy carrying its own key
+		// (signed by nobody the terminal trusts) and every later read with the genuine file
+		if w.CardSec == nil {
+			return false
+		}
+		keys := newCA()
+		cs := w.CardSec.Spec
+		old := w.Pers.CAKeys[w.Pers.CAMKey]
+		cs.EContent = bytes.Replace(cs.EContent, chip.EncodePoint(old.Curve, old.X, old.Y), chip.EncodePoint(keys[w.Pers.CAMKey].Curve, keys[w.Pers.CAMKey].X, keys[w.Pers.CAMKey].Y), -1)
+		k, cert, sch := untrustedDS(w, rng)
+		cs.Signer, cs.SignerCert, cs.Scheme, cs.DigestAlg = k, cert, sch, sch.Hash
+		w.Pers.FirstServe = map[uint16][]byte{chip.FidCardSecurity: pki.BuildSignedData(cs, rng).DER}
+		w.Pers.CAKeys = keys
+		return true
 	}
 	return false
 }
@@ -411,9 +451,13 @@ func (HostileEngine) Run(prop string, ci any) *core.Outcome {
 			if sum.DataTrusted || authentic {
 				out.Violate("C02", "stripped-file-trusted", sig, "the chip withheld a DG14/DG15 still referenced by the security object, yet DataTrusted=%v ChipAuthenticity=%v", sum.DataTrusted, sum.ChipAuthenticity)
 			}
-		case "cardaccess-extra-info", "cardaccess-downgraded":
+		case "cardaccess-extra-info", "cardaccess-downgraded", "cardaccess-foreign-info-no-pace":
 			if sum.DataTrusted {
 				out.Violate("C02", "cardaccess-mismatch-trusted", sig, "EF.CardAccess carries security infos that DG14 does not contain, yet DataTrusted=true")
+			}
+		case "cam-clone-swaps-cardsec":
+			if authentic {
+				out.Violate("C02", "clone-chip-authentic", sig, "a clone that swaps EF.CardSecurity between reads is reported chip-authentic (%v)", sum.ChipAuthenticity)
 			}
 		case "cam-cardsec-untrusted", "cam-substituted-key-resigned-untrusted":
 			if authentic || sum.DataTrusted {
